@@ -41,3 +41,5 @@ func verifParseYAML(src string) *yaml.Node               { return nil }
 func verifIsNative() bool                              { return false }
 func verifDebug(label string, s string)                 {}
 func verifSetCwd(dir string)                            {}
+func verifRecordMapRangers(on bool)                     {}
+func verifMapRangers() []string                         { return nil }
